@@ -296,11 +296,20 @@ def skipLen : Nat → List STok → Nat
     | .startTag _ => 1 + skipLen (lv + 1) r
     | _ => 1 + skipLen lv r
 
-/-- the `StartTagPIToken` branch: tokens consumed through `?>` -/
+/-- the `StartTagPIToken` branch: tokens consumed through `?>` — or through a `>` / `/>` token: a `>` in the data of the
+processing instruction ended it for the lexer (/repo 59fe76b) -/
 def piLen : List STok → Nat
   | [] => 0
   | .startTagClosePI :: _ => 1
+  | .startTagClose :: _ => 1
+  | .startTagCloseVoid :: _ => 1
   | _ :: r => 1 + piLen r
+
+/-- a token of a kept processing instruction as written: verbatim, a `>` / `/>` token with a space in front -/
+def piOut : STok → List STok
+  | .startTagClose => [.text [' '], .startTagClose]
+  | .startTagCloseVoid => [.text [' '], .startTagCloseVoid]
+  | t => [t]
 
 /-- `printTag(w, tb, ForeignObject)`: number of tokens copied verbatim (`level`, `inStartTag`) -/
 def printLen : Nat → Bool → List STok → Nat
@@ -353,7 +362,7 @@ def plan (num : List Char → List Char) (o : SvgOpts) : St → Nat → List STo
       (if st.tag == nStyle then PTok.styleCData st.mime d tx else PTok.cdataTok d tx) :: plan num o st 0 r
     | .startTagPI n =>
       if n == ['x', 'm', 'l'] then plan num o st (piLen r) r
-      else PTok.tok t :: ((r.take (piLen r)).map PTok.tok ++ plan num o st (piLen r) r)
+      else PTok.tok t :: (((r.take (piLen r)).flatMap piOut).map PTok.tok ++ plan num o st (piLen r) r)
     | .startTagClosePI => plan num o st 0 r
     | .startTag n =>
       if skipStart n r then plan num o { st with tag := n } (skipLen 0 r) r
@@ -375,18 +384,76 @@ def plan (num : List Char → List Char) (o : SvgOpts) : St → Nat → List STo
 def cdataOpen : List Char := ['<', '!', '[', 'C', 'D', 'A', 'T', 'A', '[']
 def cdataEnd : List Char := [']', ']', '>']
 
+def isHexD (c : Char) : Bool := isDigit c || ('a' ≤ c && c ≤ 'f') || ('A' ≤ c && c ≤ 'F')
+def isNameStart (c : Char) : Bool := isLetter c || c == '_' || c == ':' || 128 ≤ c.toNat
+def isNameCh (c : Char) : Bool :=
+  isLetter c || isDigit c || c == '.' || c == '-' || c == '_' || c == ':' || 128 ≤ c.toNat
+
+/-- `isCharData`, one reference: `r` = the bytes behind `&`; number of bytes of `r` up to and including the `;` -/
+def refLen (r : List Char) : Option Nat :=
+  match r with
+  | '#' :: 'x' :: r2 =>
+    let ds := r2.takeWhile isHexD
+    if ds.isEmpty then none else
+    match r2.drop ds.length with
+    | ';' :: _ => some (ds.length + 3)
+    | _ => none
+  | '#' :: r2 =>
+    let ds := r2.takeWhile isDigit
+    if ds.isEmpty then none else
+    match r2.drop ds.length with
+    | ';' :: _ => some (ds.length + 2)
+    | _ => none
+  | c :: r2 =>
+    if isNameStart c then
+      let nm := r2.takeWhile isNameCh
+      match r2.drop nm.length with
+      | ';' :: _ => some (nm.length + 2)
+      | _ => none
+    else none
+  | [] => none
+
+/-- `isCharData(b)` (/repo d582c28): no `<`, every `&` starts a complete character or entity reference.
+The `Nat` = bytes still to skip (0 at the call). -/
+def isCharDataGo : Nat → List Char → Bool
+  | _, [] => true
+  | k + 1, _ :: r => isCharDataGo k r
+  | 0, c :: r =>
+    if c == '<' then false
+    else if c == '&' then
+      match refLen r with
+      | some n => isCharDataGo n r
+      | none => false
+    else isCharDataGo 0 r
+
+def isCharData (b : List Char) : Bool := isCharDataGo 0 b
+
+/-- the byte string contains `]]>` -/
+def hasCdataEnd : List Char → Bool
+  | [] => false
+  | c :: r => (match c :: r with | ']' :: ']' :: '>' :: _ => true | _ => false) || hasCdataEnd r
+
+/-- style element text / style attribute: the result of `sub` is used only when it is still character data -/
+def styleData (e : Env) (mime : List Char) (inl : Bool) (p : List Char) : List Char :=
+  match e.sub mime inl p with
+  | some out => if isCharData out then out else p
+  | none => p
+
+/-- style CDATA: the result of `sub` is used only when it does not contain `]]>`; `(Data, Text)` of the section -/
+def styleSection (e : Env) (mime d tx : List Char) : List Char × List Char :=
+  match e.sub mime false tx with
+  | some out => if hasCdataEnd out then (d, tx) else (cdataOpen ++ out ++ cdataEnd, out)
+  | none => (d, tx)
+
 /-- closing the holes, shape only (no `]]>` guard): which token is written; used by the structural lemmas, the
 element / attribute events of `emit` are those of `(plan …).map (fill e)` (`Proofs.SvgDoc.evsOut_emit`) -/
 def fill (e : Env) : PTok → STok
   | .tok t => t
   | .textTok d => .text d
   | .cdataTok d tx => cdataOut d tx
-  | .styleText mime p => .text ((e.sub mime false p).getD p)
-  | .styleCData mime d tx =>
-    match e.sub mime false tx with
-    | some out => cdataOut (cdataOpen ++ out ++ cdataEnd) out
-    | none => cdataOut d tx
-  | .styleAttr n mime p => mkAttr n (escapeAttrVal ((e.sub mime true p).getD p))
+  | .styleText mime p => .text (styleData e mime false p)
+  | .styleCData mime d tx => cdataOut (styleSection e mime d tx).1 (styleSection e mime d tx).2
+  | .styleAttr n mime p => mkAttr n (escapeAttrVal (styleData e mime true p))
   | .pathAttr n p => mkAttr n (escapeAttrVal (e.path p))
 
 /-- a request to a parameter: kind (`0` style element text, `1` style CDATA, `2` style attribute, `3` path),
@@ -399,18 +466,15 @@ def escCD := Verif.Model.Xml.escCD
 def brAfter := Verif.Model.Xml.brAfter
 
 /-- closing one hole when `br` brackets `]` end the output written so far: the token written and the request made.
-Character data (text token, CDATA section written as text) goes through `escapeCDEnd(·, bw.n)`; in a `style`
-element the text is escaped *before* it is handed to `sub`, whose result is written as it is. -/
+Every character data token (text token, style text after the sub-minifier, CDATA section written as text) is written
+through `escapeCDEnd(·, bw.n)` as the last step. -/
 def fillAt (e : Env) (br : Nat) : PTok → STok × Option Req
   | .tok t => (t, none)
   | .textTok d => (.text (escCD br d), none)
   | .cdataTok d tx => (cdataOutAt br d tx, none)
-  | .styleText mime p => (.text ((e.sub mime false (escCD br p)).getD (escCD br p)), some (0, mime, escCD br p))
-  | .styleCData mime d tx =>
-    (match e.sub mime false tx with
-     | some out => cdataOutAt br (cdataOpen ++ out ++ cdataEnd) out
-     | none => cdataOutAt br d tx, some (1, mime, tx))
-  | .styleAttr n mime p => (mkAttr n (escapeAttrVal ((e.sub mime true p).getD p)), some (2, mime, p))
+  | .styleText mime p => (.text (escCD br (styleData e mime false p)), some (0, mime, p))
+  | .styleCData mime d tx => (cdataOutAt br (styleSection e mime d tx).1 (styleSection e mime d tx).2, some (1, mime, tx))
+  | .styleAttr n mime p => (mkAttr n (escapeAttrVal (styleData e mime true p)), some (2, mime, p))
   | .pathAttr n p => (mkAttr n (escapeAttrVal (e.path p)), some (3, [], p))
 
 /-- closing the holes from left to right; the bracket count follows the bytes written (`bracketWriter`),
